@@ -113,7 +113,7 @@ static std::string builder_run(const JV& st) {
       std::string js = snapjson(s);
       snaps.push_back(s); snaptext.push_back(js);
       r = "{\"ok\":1,\"len\":" + std::to_string((long long)b.length()) + ",\"json\":" + jstr(js)
-        + ",\"type\":" + jstr(s->type(ak::util::TypeStrs())->tostring())
+        + ",\"type\":" + jstr(s->type(default_typestrs())->tostring())
         + ",\"valid\":" + jstr(first_line(s->validityerror("layout"))) + "}";
     }
     CATCH_ALL(r)
